@@ -1,4 +1,5 @@
 import Oracle.SpecKernel
+import Oracle.FmtModel
 
 def main : IO UInt32 :=
-  Oracle.run (Oracle.mkTable Gen.table) Oracle.kernelSpecTable
+  Oracle.run (Oracle.mkTable (Gen.table ++ Oracle.fmtModelTable)) Oracle.kernelSpecTable
